@@ -671,7 +671,13 @@ func (r *ref) call(at any, name string, args []any) any {
 		}
 		sort.SliceStable(idx, func(i, j int) bool { return less(keys[idx[i]], keys[idx[j]]) })
 		for i := 0; i+1 < len(idx); i++ {
-			if !less(keys[idx[i]], keys[idx[i+1]]) && canon.String(l[idx[i]], canon.Typed) != canon.String(l[idx[i+1]], canon.Typed) {
+			if less(keys[idx[i]], keys[idx[i+1]]) {
+				continue
+			}
+			if isCyclic(l[idx[i]], map[uintptr]bool{}) || isCyclic(l[idx[i+1]], map[uintptr]bool{}) {
+				unspec("equal sort keys on elements that contain themselves: order open")
+			}
+			if canon.String(l[idx[i]], canon.Typed) != canon.String(l[idx[i+1]], canon.Typed) {
 				unspec("equal sort keys on different elements: order open")
 			}
 		}
